@@ -1521,3 +1521,55 @@ func ruleEpochRecoveryWalksEverySegment(c *eng.Ctx, fn *ssa.Function) {
 		c.Check(ok, "the scan for missing epochs goes over the segment list", c.Pos(in), "newReverseSegmentScannerFromEnd(l.segments[i]) inside a loop over the segments", "recoverLeaderEpochs scans "+eng.Describe(eng.AllArgs(m.Common())[0])+" only: epochs whose first message lies in an older segment are not recovered when the checkpoint file is missing or stale, the leader answers a later boundary for them, and a follower keeps messages of a deposed leader")
 	}
 }
+
+// ruleEveryCountedReportIsVetted (R07.2 extension; round 13): the quorum is counted over reports that were each checked against
+// the parties that may report now (in-sync follower, current leader epoch, age). ReportLeader validates a report outside
+// the status lock, so an ISR shrink or a leader change can land between that validation and report(): the pruning walk
+// therefore comes after the new report is stored — the newest report is vetted like every older one.
+func ruleEveryCountedReportIsVetted(c *eng.Ctx) {
+	fn := c.Fn("server.(*failoverStatus).report")
+	if fn == nil {
+		return
+	}
+	wit := eng.LoadNamed("witnesses", nil)
+	var stores, walks, counts []ssa.Instruction
+	eng.Instrs(fn, func(in ssa.Instruction) {
+		switch x := in.(type) {
+		case *ssa.MapUpdate:
+			if wit(x.Map) && eng.Param("witness")(x.Key) {
+				stores = append(stores, in)
+			}
+		case *ssa.Range:
+			if wit(x.X) {
+				walks = append(walks, in)
+			}
+		case *ssa.BinOp:
+			for _, o := range []ssa.Value{x.X, x.Y} {
+				if call, isCall := eng.Strip(o).(*ssa.Call); isCall && isBuiltinCall(call, "len") && wit(call.Call.Args[0]) {
+					counts = append(counts, in)
+				}
+			}
+		}
+	})
+	if len(stores) == 0 || len(walks) == 0 || len(counts) == 0 {
+		c.Unresolved("the store of the new report, the pruning walk and the quorum count of failoverStatus.report")
+		return
+	}
+	q := &eng.PathQuery{Fn: fn, FromAfter: stores, Target: func(x ssa.Instruction) bool {
+		for _, k := range counts {
+			if x == k {
+				return true
+			}
+		}
+		return false
+	}, CutInstr: func(x ssa.Instruction) bool {
+		for _, k := range walks {
+			if x == k {
+				return true
+			}
+		}
+		return false
+	}}
+	w := q.Find()
+	c.Check(w == nil, "the report just received is vetted before it is counted", c.Pos(stores[0]), "f.witnesses[witness] = …; then the walk that drops who may not report; then len(f.witnesses) > quorum", "failoverStatus.report counts the witnesses without having walked them after it stored the new report (path "+w.String()+"): ReportLeader validates a report outside the status lock, so the report of a replica that was shrunk out of the ISR meanwhile (or one for a replaced leader epoch) completes a quorum — a leader is replaced although no majority of the in-sync followers reported it")
+}
